@@ -18,6 +18,10 @@ FORBIDDEN_METHODS = {"unprotect", "remove", "rm", "rmdir", "rmtree", "unlink", "
 
 
 def check(ck: Checker) -> None:
+    from . import round4 as _r4
+
+    _r4.failures_always_raised(ck, "C10.state")
+    _r4.relink_skip_only_dirs(ck, "C10.linkkind")
     ck.decided = [
         "C10.cacheimmutable: a cache object path (cache.oid_to_path(...)) flows only into link sources, protect and read-only queries - never into removal, unprotect, chmod or a copy destination",
         "C10.reprotect: after relinking, the cache object is protected again on every normal path",
@@ -145,8 +149,10 @@ def _state(ck: Checker) -> None:
         for x, cc in apps:
             t = cc.args[0]
             p, oid, info = [norm(e) for e in t.elts[:3]] if len(t.elts) >= 3 else (None, None, None)
-            ialts = [norm(a) for a in expand1(prog, co, t.elts[2], levels=1)] if len(t.elts) >= 3 else []
-            ok = oid is not None and oid.endswith(".new.oid") and any(a in (f"_localfs_info({p})", f"fs.info({p})") for a in ialts)
+            from ..an import value_alts
+
+            ialts = [norm(a) for a in value_alts(g, x, t.elts[2], depth=2) if not isinstance(a, ast.Name)] if len(t.elts) >= 3 else []
+            ok = oid is not None and oid.endswith(".new.oid") and bool(ialts) and all(a in (f"_localfs_info({p})", f"fs.info({p})") for a in ialts)
             ck.require(ok, "C10.state", co, x, "row is (path, change.new.oid, fresh stat of that path)", f"state row {norm(t)} does not pair the path with the target hash and that path's own stat ({ialts})")
             # only on the success (try-else) branch: not reachable from the CheckoutError handler
             hs = [h for h in g.nodes.values() if h.kind == "handler" and x.loops and x.loops[-1] in h.loops]
